@@ -27,7 +27,7 @@ d_own = sum(1 for m in metas if m["breaks_property"] in m["caught_by"])
 f_own = sum(1 for m in metas if m.get("official_run", {}).get("caught"))
 f_inp = sum(1 for m in metas if m.get("official_run", {}).get("with_concrete_failing_input"))
 anyc = sum(1 for m in metas if m["caught_by"])
-txt = (f"{n} confirmed seeded changes are kept (rounds 4-7).  Caught by the check of the property they were written against **at delivery time** (the checks as they "
+txt = (f"{n} confirmed seeded changes are kept (rounds 4-8).  Caught by the check of the property they were written against **at delivery time** (the checks as they "
        f"were before the change was looked at): {d_own} of {n}; caught by at least one check then: {anyc} of {n}.  **Final checks, official run against /repo**: {f_own} of {n} "
        f"({f_inp} with a concrete failing input, {f_own - f_inp} as a broken proof obligation / correspondence with `no-failing-input-found`).\n\n"
        "| seeded change | what it is | own check at delivery | own check, final (official run) | other checks that caught it at delivery |\n|---|---|---|---|---|\n" + "\n".join(rows) + "\n")
